@@ -159,7 +159,7 @@ def guard_rule(m, run, fi, op):
                 lhs = rhs = None
                 why = 'guard not polynomial: %s' % ex
             if lhs is not None:
-                svar = [a for a in rhs.atoms() if not ('degree' in a)]
+                svar = [a for a in rhs.atoms() if not ('degree' in a.split('.')[-1])]
                 sdef = None
                 if len(svar) == 1:
                     ds = sc.reaching(svar[0], c)
@@ -181,7 +181,7 @@ def guard_rule(m, run, fi, op):
                 ok_form = ok_form and okmult
             # the guard must be switchable only by check_num
             others = [v for v in (e.values if isinstance(e, ast.BoolOp) else []) if v is not c]
-            ok_flag = all(isinstance(v, ast.Name) and v.id == 'check_num' for v in others)
+            ok_flag = all(isinstance(v, ast.Name) and sc.api_origin(v) == 'check_num' for v in others)
             run.ob('GD2.multiplicity-guard', key, ok_form and ok_flag, why, site(fi, c))
     run.floor('GD2.multiplicity-guard', 12, '6 blocks x (set_ctrlpts, knot vector)')
 
